@@ -253,8 +253,17 @@ class StackSim:
         finally:
             S.random = old
 
+    def soon(self, hops, c):
+        """application code that makes the call `hops` loop iterations later (model: ApiSoon)"""
+        if hops == 0:
+            self.do((1, c))
+        else:
+            self.loop.call_soon(self.soon, hops - 1, c)
+
     def api(self, c):
         p, code = self.prot, c[0]
+        if code in (22, 23, 24):
+            return self.soon(code - 21, c[1])
         if code == 0:
             p.start()
         elif code == 1:
@@ -381,8 +390,8 @@ def canon_trace(tr):
     return out
 
 
-def run_impl(sc):
-    sim = StackSim(sc)
+def run_impl(sc, early_at=()):
+    sim = StackSim(sc, loop=VLoop(rev_ties=sc["rev"], early_at=early_at)) if early_at else StackSim(sc)
     try:
         completed = sim.run()
         return canon_trace(sim.trace), completed, (sim.final(), list(sim.ghost))
